@@ -1,6 +1,8 @@
 import NgVerif.Model.Prim
 import NgVerif.Model.Readable
 import NgVerif.Model.Stats
+import NgVerif.Model.Morton
+import NgVerif.Model.Routing
 /-
   ngdriver: line protocol. One request per line on stdin (space-separated tokens),
   one reply per line on stdout. Unknown / malformed requests answer `bad-request`.
@@ -35,6 +37,27 @@ def handle (toks : List String) : String :=
       -- the grid is only enumerated when it is small (the protocol is used with huge sizes too)
       let g := if r.chunks ≤ 100000 then toString (Tiling.grid3 s c).length else "-"
       s!"{r.chunks} {r.dirs} {r.bytes} {g}"
+    | _, _, _, _ => "bad-request"
+  | ["morton-code", gs, cs] =>
+    match parseList parseNat gs, parseList parseInt cs with
+    | some g, some c =>
+      match Morton.code g c with
+      | .ok v => s!"ok {v} {Morton.spec g (c.map Int.toNat)} {Morton.sumBits g} {showNatList (g.map Morton.clog2)}"
+      | .error e => s!"err {e}"
+    | _, _ => "bad-request"
+  | ["getcmc", sizes, chunk, mins] =>
+    match parseList parseNat sizes, parseList parseNat chunk, parseList parseInt mins with
+    | some s, some c, some m =>
+      let gs := (List.zip s c).map fun (a, b) => Morton.gridSize a b
+      match Morton.getCmc s c m with
+      | .ok v => s!"ok {v} {showNatList gs}"
+      | .error e => s!"err {e} {showNatList gs}"
+    | _, _, _ => "bad-request"
+  | ["route", m, s, p, id] =>
+    match parseNat m, parseNat s, parseNat p, parseNat id with
+    | some m, some s, some p, some id =>
+      let sk := Routing.shardKey m s p id
+      s!"{sk} {Routing.minishardKey m p id} {Routing.specShard m s p id} {Routing.specMinishard m p id} {Routing.fileName sk s} {Routing.minishardMask m} {Routing.shardMask m s} {Routing.preshiftMask p}"
     | _, _, _, _ => "bad-request"
   | _ => "bad-request"
 
